@@ -39,7 +39,7 @@ func init() {
 	registry["C14"] = func() *Property {
 		return &Property{
 			ID:          "C14",
-			Explanation: "A typestate of strings, decided statically. A styled text is in normal form when it consists of plain characters and line feeds with no attribute active, and of units `openers, one character, reset`; in such a text every character carries exactly the attributes of its own unit and nothing is active at a line feed or at the end, and concatenating, repeating, splitting or cutting normal-form texts at line feeds keeps the form. Decided: (R1) ansi.Apply, the only emitter of escape sequences, emits for every character other than a line feed exactly one opener carrying its style parameter, the character's own previous openers, the character and a reset, and emits line feeds bare: the style is added to each character's own unit and to nothing else; (R2) every function of packages ansi and style that returns a string returns normal form when its text parameters are in normal form: an automaton (closed, opened, lettered) is run over what each returned value is concatenated from — lexed constants, pieces of a match of ansi.expand (match[0] a whole unit, match[1] its openers, match[2] its character, a line feed only where the path knows it is none), parameters, slices of matches, results of the functions themselves and of form-preserving library calls (Repeat, Join/Split at line feeds, cuts at the index of a line feed, trimming of blanks) — with loop accumulators treated coinductively; (R3) outside package ansi no instruction looks inside a string that can carry styling (forward value flow from every ansi.Apply result to string slicing, indexing, conversion to runes or bytes, ranging, and character-editing library calls); (R4) escape bytes occur only in constants of package ansi. Together: every string the styling layer hands out is in normal form by induction over the calls. (R5) every style handed to ansi.Apply, directly or through the functions of the style layer that pass a parameter on as the start of it, starts with a constant SGR code that is neither empty nor the reset code (ESC[m and ESC[0m switch every attribute off). NOT decided: the terminal's interpretation of SGR parameters, that the style parameter is a valid SGR parameter (C01.R3 decides that it is built from constants and validated colours), and content preservation by the layout functions (C13).",
+			Explanation: "A typestate of strings, decided statically. A styled text is in normal form when it consists of plain characters and line feeds with no attribute active, and of units `openers, one character, reset`; in such a text every character carries exactly the attributes of its own unit and nothing is active at a line feed or at the end, and concatenating, repeating, splitting or cutting normal-form texts at line feeds keeps the form. Decided: (R1) ansi.Apply, the only emitter of escape sequences, emits for every character other than a line feed exactly one opener carrying its style parameter, the character's own previous openers, the character and a reset, and emits line feeds bare: the style is added to each character's own unit and to nothing else; (R2) every function of packages ansi and style that returns a string returns normal form when its text parameters are in normal form: an automaton (closed, opened, lettered) is run over what each returned value is concatenated from — lexed constants, pieces of a match of ansi.expand (match[0] a whole unit, match[1] its openers, match[2] its character, a line feed only where the path knows it is none), parameters, slices of matches, results of the functions themselves and of form-preserving library calls (Repeat, Join/Split at line feeds, cuts at the index of a line feed, trimming of blanks) — with loop accumulators treated coinductively; (R3) outside package ansi no instruction looks inside a string that can carry styling (forward value flow from every ansi.Apply result to string slicing, indexing, conversion to runes or bytes, ranging, and character-editing library calls); (R4) escape bytes occur only in constants of package ansi. Together: every string the styling layer hands out is in normal form by induction over the calls. (R5) every style handed to ansi.Apply, directly or through the functions of the style layer that pass a parameter on as the start of it, starts with a constant SGR code that is neither empty nor the reset code (ESC[m and ESC[0m switch every attribute off). (R6 = C13.R0) a match of ansi.expand holds exactly one visible character, so a line feed is a match of its own and is never styled. (R7 = C19.R2) the configured colours are outputs of hexToAnsi. NOT decided: the terminal's interpretation of SGR parameters, that the style parameter is a valid SGR parameter (C01.R3 decides that it is built from constants and validated colours), and content preservation by the layout functions (C13).",
 			Assumptions: []string{"regexp semantics of ansi.expand's pattern (checked in C13.R0): a match is openers, one character, an optional reset", "string parameters of the ansi and style functions are texts in normal form or plain texts (by induction: R3 shows nothing else can be made outside)", "a terminal applies ESC[0m as 'all attributes off'"},
 			Rules: []Rule{
 				{ID: "C14.R1", Title: "ansi.Apply adds its style to each character's own unit and closes it", Floor: 3, Run: c14R1},
@@ -47,6 +47,8 @@ func init() {
 				{ID: "C14.R3", Title: "nobody outside package ansi looks inside a styled text", Floor: 1, Run: c14R3},
 				{ID: "C14.R4", Title: "escape bytes occur in constants of package ansi only", Floor: 1, Run: c14R4},
 				{ID: "C14.R5", Title: "every style handed to ansi.Apply starts with a constant, non-resetting SGR code", Floor: 6, Run: c14R5},
+				{ID: "C14.R6", Title: "a match of ansi.expand holds exactly one visible character, so a line feed is always a match of its own and is never styled (same instances as C13.R0)", Floor: 2, Run: c13R0},
+				{ID: "C14.R7", Title: "the configured colours that end up behind ESC[38;2; are outputs of hexToAnsi: digits and semicolons (same instances as C19.R2)", Floor: 7, Run: c19R2},
 			},
 		}
 	}
